@@ -302,7 +302,9 @@ def rule_sh2(ctx, only=None):
                 got = run(O)
                 w = want(O)
                 if w and isinstance(w[0], tuple):
-                    gs = tuple(x.shape if isinstance(x, AArr) else None
+                    # a rank-0 component may come back as a NumPy scalar
+                    gs = tuple(x.shape if isinstance(x, AArr) else
+                               () if isinstance(x, AScal) else None
                                for x in got) if isinstance(got, tuple) \
                         else None
                     if gs != tuple(tuple(x) for x in w):
@@ -1364,6 +1366,9 @@ HOM_VARIANT_BY_DESIGN = {
     "Segment.get_end_pair": "returns the stored rows (as_points=False)",
     "projective_coords": "maps affine to homogeneous coordinates",
     "projective_coords(chart 1)": "maps affine to homogeneous coordinates",
+    "TangentVector._compute_aux_data":
+        "returns homogeneous rows (base point, tangent vector); only the "
+        "scale-dependent constructs met on the way are judged",
 }
 # functions that may add up rows with independent scales: only the span of
 # the rows is used afterwards
@@ -1401,6 +1406,11 @@ def _hom_extra_table():
               [dict(arr=("n",))], {}, no))
     t.append(("hyperboloid_coords", fn, "hyperboloid_coords",
               [dict(arr=("n",))], {}, no))
+    t.append(("Segment._compute_aux_data", seg, "_compute_aux_data",
+              [dict(arr=(2, "n"))], {}, no))
+    tv = dict(cls="TangentVector", proj=(2, "n"), und=2)
+    t.append(("TangentVector._compute_aux_data", tv, "_compute_aux_data",
+              [dict(arr=(2, "n"))], {}, no))
     t.append(("spacelike_to", fn, "spacelike_to",
               [dict(arr=(4,), outer=())], {}, no))
     t.append(("timelike_to", fn, "timelike_to",
@@ -1409,6 +1419,8 @@ def _hom_extra_table():
 
 
 HOM_ARRAY_ARGS.update({"kleinian_coords": (0,), "hyperboloid_coords": (0,),
+                       "Segment._compute_aux_data": (0,),
+                       "TangentVector._compute_aux_data": (0,),
                        "spacelike_to": (0,), "timelike_to": (0,)})
 
 
@@ -1530,6 +1542,10 @@ def _run_hom_table(ctx, rid, it, table, home_rel, complex_scale=False,
                     verdict = "refuted"
                     detail = (f"{where} is multiplied by {h!r} when the "
                               f"homogeneous coordinates are rescaled, so it")
+                elif not h.wild and not h.steady and h.why:
+                    verdict = "refuted"
+                    detail = (f"{where} is a predicate decided by {h.why}, "
+                              "so it")
             if not list(flat(got)) and verdict == "proved":
                 verdict = "object"
             for o in (got if isinstance(got, (tuple, list)) else [got]):
@@ -1561,7 +1577,8 @@ def _run_hom_table(ctx, rid, it, table, home_rel, complex_scale=False,
         # is not a violation: the library's validity guards compare raw
         # homogeneous data with absolute tolerances by design (timelike_to,
         # the constructors), and the interpreter assumes they pass
-        hard = [ev for ev in events if ev["kind"] in ("E2", "E5", "E1c", "E6")
+        hard = [ev for ev in events if ev["kind"] in ("E2", "E5", "E1c", "E6",
+                                                      "E8")
                 or (ev["kind"] == "E3" and (
                     ev["fn"] is None or ev["fn"].name not in HOM_ROWSUM_OK))]
         if debug:
